@@ -25,22 +25,29 @@ MANIFEST = dict(
          "sender / another account / a second other account) when signed and each value as submitted (member dropped, added, pointed elsewhere, payer swapped) "
          "and for each other field changed instead - sender signatures made in either sender scheme before / after the change, payer signatures absent / by the "
          "holders of the account named before / of the one named now, before / after the change; sender signatures copied into the payer list and payer-scheme "
-         "signatures in the sender list; the same for box sub-transactions (changed before / after the box sender signed) and for votes; "
+         "signatures in the sender list; the same for box sub-transactions (transfers and votes; changed before / after the box sender signed), for votes and for "
+         "re-configurations of the signers, and - member absent / dropped / added / swapped - with the transaction read from its JSON form (RPC carrier: member missing) "
+         "as well as from its RLP form; WHAT THE PAYER'S STATEMENT COMMITS TO WHEN THE SENDER HAS SEVERAL SIGNATURES: the submitted sender-signature list is that of the "
+         "sender's holders alone or with the sender signature of another account's transaction in front / in between / behind, and the payer's holders (plain or "
+         "multi-signature other account, or the sender account itself) made their statement over every sequence of up to 3 positions of that list or foreign "
+         "signatures (the list itself, its first element, a prefix = co-signers signed later, a longer list, a re-ordering, nothing, the list of the other "
+         "transaction = a payer statement moved onto another transaction); "
          "box-wrapped transactions (also reimbursed ones, and a box signed "
          "by a foreign key), boxes whose JSON data was re-written after the box sender signed (sub-transaction field changed, re-signed by its own "
          "holders or not, signature replaced, gas terms raised by the payer; \"hash\" member true / absent / that of the replaced sub-transaction / "
          "arbitrary), vote and asset-creation transactions, re-configurations of the signers, and - while a re-configuration sits in a recent block that is "
          "not stable yet - every subset of the FORMER signers and of the new ones signing (also as gas payer, also to put themselves back), until the "
-         "deputies confirm the block - and checks fifteen clauses on each (effect only if "
+         "deputies confirm the block - and checks sixteen clauses on each (effect only if "
          "authorised, canonical accepted, repetition / foreign keys / removal never help, encoding irrelevant, tampering falsifies per scheme, the gasPayer "
-         "member binds, a signature of one scheme or role does not authorise in another, payer binds, exact "
+         "member binds, a signature of one scheme or role does not authorise in another, payer binds, the payer's statement binds the whole sender-signature list, exact "
          "threshold, re-configuration iff packaged, every changed field covered by a later signature, box binds its sub-transactions, JSON hash label "
-         "irrelevant); six wrong decision procedures are negative controls. Every case is replayed as a real signed transaction on a real mining node (MineBlock) and, in a block, "
+         "irrelevant); seven wrong decision procedures are negative controls. Every case is replayed as a real signed transaction on a real mining node (MineBlock) and, in a block, "
          "on a second real node (InsertBlock; forged block with the executed state roots when the miner refused); each behaviour has its own pair of nodes on which the block "
          "configuring the sender is stable (InsertConfirms); TLC validates every logged outcome and "
          "account-state delta against the monitor: any effect => Authorized for the signers registered NOW, canonical authorised => packaged and "
          "accepted, effect = that of the submitted content paid by the account the submitted gasPayer member makes pay, refusal changes nothing. A seeded driver does the same for random large accounts "
-         "(up to 100 signers, weights 1..100, up to 110 signatures; also gasPayer member dropped / added / swapped and signatures of the other scheme).",
+         "(up to 100 signers, weights 1..100, up to 110 signatures; also gasPayer member dropped / added / swapped, signatures of the other scheme, payer statements "
+         "made over a prefix / the first element / a re-ordering of the sender signatures or moved from another transaction, JSON carrier).",
     note="One genuine defect was found and repaired in /repo (checkSignersWeight added a signer's weight once per signature; fix: commit in known_findings.txt); the "
          "named deviation Dev_MultisigCountsRepeatedSigner stays in the spec (design-side negative control) and would be accepted only if listed again. "
          "The arrival check of real nodes (VerifyTxBody) is applied before the miner, with the parent block's time as 'now'.",
@@ -54,7 +61,10 @@ def stats(files):
     st = dict(offers=0, packaged=0, refused=0, intake_refused=0, validator_honest_ok=0, validator_forged=0, validator_forged_accepted=0,
               packaged_carrying_a_repeated_signer=0, gaspayer_member_absent=0, gaspayer_member_absent_packaged=0,
               gaspayer_member_changed_after_signing=0, gaspayer_member_changed_packaged=0, signature_made_in_another_scheme=0,
-              offered_while_signers_differ_from_stable_block=0, of_these_packaged=0, stabilised=0, real_code_failures=0)
+              offered_while_signers_differ_from_stable_block=0, of_these_packaged=0, stabilised=0, real_code_failures=0,
+              payer_statement_made_over_another_signature_list=0, of_these_sharing_the_first_sender_signature=0,
+              payer_statement_over_submitted_list_with_a_foreign_sender_signature_packaged=0,
+              json_carrier=0, json_carrier_packaged=0, json_carrier_gaspayer_member_missing=0)
     for f in files:
         for ln in open(f):
             e = json.loads(ln)
@@ -77,6 +87,15 @@ def stats(files):
                 form = "reimb" if c["psigs"] else "default"
                 if any(s["sch"] != form for s in c["sigs"]) or any(s["sch"] != "payer" for s in c["psigs"]):
                     st["signature_made_in_another_scheme"] += 1
+                if c["psigs"] and c["over"] != list(range(1, len(c["sigs"]) + 1)):
+                    st["payer_statement_made_over_another_signature_list"] += 1
+                    st["of_these_sharing_the_first_sender_signature"] += 1 if c["over"][:1] == [1] else 0
+                elif c["psigs"] and e["packaged"] and any(s["who"] != "S" for s in c["sigs"]):
+                    st["payer_statement_over_submitted_list_with_a_foreign_sender_signature_packaged"] += 1
+                if c["via"] == "json":
+                    st["json_carrier"] += 1
+                    st["json_carrier_packaged"] += 1 if e["packaged"] else 0
+                    st["json_carrier_gaspayer_member_missing"] += 1 if c["gp"] == "absent" else 0
                 if e["scfg"] != e["cfg"]:
                     st["offered_while_signers_differ_from_stable_block"] += 1
                     st["of_these_packaged"] += 1 if e["packaged"] else 0
@@ -103,10 +122,12 @@ def run(ctx):
     # ... and the model of the defect violates them (negative control); so do five wrong decision procedures in the areas "the sender
     # reimburses itself", "re-written box data", "a signing hash that does not tell an absent gasPayer member from one naming the sender",
     # "sender signatures read without regard to the scheme they were made in", "the signers of the last stable block are consulted
-    # instead of the current ones".  (The controls run beside the replay.)
+    # instead of the current ones", "a payer's signing hash that takes only the first of several sender signatures".  (The controls run
+    # beside the replay.)
     controls = (("MCAuth_neg.cfg", DEV, None), ("MCAuth_neg_own.cfg", "Neg_OwnPayerUnchecked", "ChangeCovered"),
                 ("MCAuth_neg_box.cfg", "Neg_BoxTrustsLabel", "BoxBinds"), ("MCAuth_neg_gp.cfg", "Neg_GasPayerFallbackInHash", "GasPayerFieldBinds"),
-                ("MCAuth_neg_scheme.cfg", "Neg_SchemeBlind", "SchemeBinds"), ("MCAuth_neg_stale.cfg", "Neg_StaleSigners", "EffectOnlyIfAuthorized"))
+                ("MCAuth_neg_scheme.cfg", "Neg_SchemeBlind", "SchemeBinds"), ("MCAuth_neg_stale.cfg", "Neg_StaleSigners", "EffectOnlyIfAuthorized"),
+                ("MCAuth_neg_over.cfg", "Neg_PayerSignsFirstSig", "PayerBindsSigList"))
 
     def control(i):
         time.sleep(0.3 * i)                                 # (distinct TLC meta directories)
@@ -134,10 +155,12 @@ def run(ctx):
     ctx.cov["exhaustive"] = True
     if ok and not (st["packaged"] and st["refused"] and st["validator_honest_ok"] and st["validator_forged"] and st["gaspayer_member_absent_packaged"]
                    and st["gaspayer_member_changed_after_signing"] and st["signature_made_in_another_scheme"] and st["stabilised"]
-                   and st["offered_while_signers_differ_from_stable_block"] and st["of_these_packaged"]):
+                   and st["offered_while_signers_differ_from_stable_block"] and st["of_these_packaged"]
+                   and st["of_these_sharing_the_first_sender_signature"] and st["payer_statement_over_submitted_list_with_a_foreign_sender_signature_packaged"]
+                   and st["json_carrier_packaged"] and st["json_carrier_gaspayer_member_missing"]):
         raise vlib.Broken("vacuous run: %s" % st)
     # ---- random large accounts (up to 100 signers, weights 1..100, up to 110 signatures), same monitor
-    n = 110 if ctx.quick() else 1100
+    n = 150 if ctx.quick() else 1500
     rnd = ctx.path("traces", "auth-rand.ndjson")
     ctx.drive("auth-rand", ["-out", rnd, "-seed", ctx.seed, "-n", n], timeout=1500,
               env={"VERIF_SCRATCH_DIR": ctx.path("work", "auth-rand", ".keep")[:-6]})
@@ -147,6 +170,10 @@ def run(ctx):
         "a signature is abstracted to (account and signer, encoding variant, signing scheme, made before/after the field change); real signatures are "
         "produced with real keys over the real signing hashes (DefaultSigner / ReimbursementTxSigner / GasPayerSigner), variant 1 = s -> n-s; a payer-scheme "
         "signature placed in the sender list is made over the transaction without sender signatures",
+        "all payer signatures of one transaction are made over the same list of sender signatures (c.over); a sender signature 'of another transaction' is "
+        "made by the key of the other plain account Q (over this content when it stands in the submitted list, over another content when it does not)",
+        "the JSON carrier is the text the node's own encoder writes, without the output-only hash member and without members whose value is null; a text "
+        "the node's decoder refuses counts as refused on arrival",
         "one field changes per case (a changed gasPayer member is that field); the form of a transaction is what its format says: payer signatures present = reimbursed",
         "the mining node of a behaviour is told that a block is stable through its store (SetStableBlock), the validating node through DPoVP.InsertConfirms "
         "with the signatures of three further deputies; only the block that configures the sender (and a Stabilise step's head) is stable",
